@@ -104,14 +104,14 @@ def run(report, tier, seed, driver, proofs_ok):
                     sub = "boolean-looking-text-lowercased-on-second-pass"
                 elif isinstance(a, str) and "{{resolve:ssm:" in a:
                     sub = "ssm-reference-resolved-on-second-pass"
-            unstable.append((t, extra, what + ":" + sub, diff, tmpl.model_op(m, extra), untyped(d1)))
+            unstable.append((t, extra, what + ":" + sub, diff, tmpl.model_op(m, extra), d1))
     # an unstable first pass is the recorded finding only when the model (the specified semantics of each function)
     # produces the same first pass: text that a function is *specified* to return as is. A first pass that differs from
     # the model's is something else (e.g. a placeholder value no longer normalised) and is reported on its own.
     firsts = driver.run([op for _, _, _, _, op, _ in unstable]) if unstable else []
     for (t, extra, what, diff, _, d1), out in zip(unstable, firsts):
         via = via_of(t, extra, diff)
-        if not out.get("outside_domain") and "resources" in out and untyped(common.canon(common.dec(out["resources"]))) != d1:
+        if not out.get("outside_domain") and "resources" in out and not same_first_pass(common.canon(common.dec(out["resources"])), d1):
             via = "first-pass-differs-from-model"
         report.violation("oracle", what, op={"template": t, "extra": extra}, impl={"path": diff[0] if diff else None, "first": diff[1] if diff else None, "second": diff[2] if diff else None},
                          oracle="m.resolve(p).resolve(p) == m.resolve(p)", via=via)
@@ -147,6 +147,23 @@ def untyped(x):
     if isinstance(x, list):
         return [untyped(v) for v in x]
     return x
+
+
+def same_first_pass(model, impl):
+    """the model's first pass against the implementation's, which has been through the final re-validation: a typed field
+    holds what pydantic made of the value (a boolean or a number stored in a mapping arrives in a text field as str(value))"""
+    if isinstance(model, bool) and isinstance(impl, str):
+        return impl.lower() == ("true" if model else "false")
+    if isinstance(model, (int, float)) and not isinstance(model, bool) and isinstance(impl, str):
+        return impl == str(model)
+    if isinstance(model, dict) and isinstance(impl, dict):
+        # optional fields the typed model fills in with None are not in the resolver's output
+        a = {k: v for k, v in model.items() if v is not None}
+        b = {k: v for k, v in impl.items() if v is not None}
+        return set(a) == set(b) and all(same_first_pass(a[k], b[k]) for k in a)
+    if isinstance(model, list) and isinstance(impl, list):
+        return len(model) == len(impl) and all(same_first_pass(a, b) for a, b in zip(model, impl))
+    return untyped(model) == untyped(impl)
 
 
 SSM_TEXT = "{{resolve:ssm:"
